@@ -126,6 +126,44 @@ pub fn param_extremes(ctx: &Ctx) {
             let _ = (f.rank(3.0), f.quantile(0.25));
         });
     }
+    // t-digest: every finite f64 is a valid value, including the largest magnitudes of both signs
+    // (their difference and their weighted sums overflow f64 unless computed with care)
+    let m = f64::MAX;
+    let shapes: Vec<(&str, Box<dyn Fn(usize) -> f64 + Sync>)> = vec![
+        ("block of -MAX then block of +MAX", Box::new(move |i| if i < 300 { -m } else { m })),
+        ("alternating -MAX / +MAX", Box::new(move |i| if i % 2 == 0 { -m } else { m })),
+        ("-MAX/1.5 .. +MAX/1.5 ramp", Box::new(move |i| (i as f64 / 300.0 - 1.0) * (m / 1.5))),
+        ("+-MAX with small values in between", Box::new(move |i| match i % 4 { 0 => -m, 1 => m, 2 => 1.0, _ => -1.0 })),
+        ("subnormals and MIN_POSITIVE", Box::new(|i| if i % 2 == 0 { f64::MIN_POSITIVE * (i as f64) } else { f64::from_bits(1 + i as u64) })),
+    ];
+    for (name, f) in &shapes {
+        for k in [10u16, 20, 100] {
+            case(format!("TDigestMut k={k}, 600 values: {name}; queries, round trip, merge of many tiny digests"), &mut || {
+                use datasketches::tdigest::TDigestMut;
+                let mut t = TDigestMut::new(k);
+                for i in 0..600 {
+                    t.update(f(i));
+                    if i % 97 == 0 {
+                        let _ = (t.rank(0.0), t.quantile(0.5));
+                    }
+                }
+                let _ = (t.rank(-m), t.rank(m), t.rank(0.0), t.quantile(0.0), t.quantile(0.25), t.quantile(0.5), t.quantile(1.0), t.cdf(&[-1.0, 1.0]), t.pmf(&[0.0]));
+                let d = TDigestMut::deserialize(&t.serialize(), false).unwrap();
+                let mut acc = TDigestMut::new(k);
+                for j in 0..40 {
+                    let mut tiny = TDigestMut::new(k);
+                    for i in 0..6 {
+                        tiny.update(f(j * 6 + i));
+                    }
+                    acc.merge(&tiny);
+                }
+                acc.merge(&d);
+                let _ = (acc.quantile(0.5), acc.rank(1.0), acc.serialize(), acc.total_weight());
+                let fz = acc.freeze();
+                let _ = (fz.quantile(0.9), fz.rank(-1.0));
+            });
+        }
+    }
     // theta: lg_k in [5, 26], p in (0, 1] (f32)
     for lg_k in [5u8, 6, 12, 26] {
         for p in [1.0f32, 0.999_999_94, 0.5, 1e-3, 1e-10, 1.2e-19, 1.0e-19, 1e-20, 1e-30, f32::MIN_POSITIVE, f32::from_bits(1)] {
